@@ -60,11 +60,15 @@ func (m *Machine) feasible(c *Term) (bool, Model, SatResult) {
 	return true, nil, Unknown
 }
 
-func (m *Machine) pushAlt(v int64) {
+// pushAlt records an unexplored alternative of the current decision together
+// with a model known to satisfy the path condition of that alternative (nil if
+// none is at hand); the path that takes it starts with that model, which
+// usually saves one of the two feasibility queries at its first new decision.
+func (m *Machine) pushAlt(v int64, model Model) {
 	alt := make([]int64, m.pos+1)
 	copy(alt, m.trace[:m.pos])
 	alt[m.pos] = v
-	m.alts = append(m.alts, alt)
+	m.alts = append(m.alts, workItem{prefix: alt, model: model})
 }
 
 func (m *Machine) branch(c *Term) bool {
@@ -90,7 +94,7 @@ func (m *Machine) branch(c *Term) bool {
 	ff, fm, _ := m.feasible(nc)
 	switch {
 	case tf && ff:
-		m.pushAlt(0)
+		m.pushAlt(0, fm)
 		m.trace = append(m.trace, 1)
 		m.pos++
 		m.addPC(c)
@@ -131,7 +135,7 @@ func (m *Machine) decide(n int, what string) int64 {
 		return v
 	}
 	for i := n - 1; i >= 1; i-- {
-		m.pushAlt(int64(i))
+		m.pushAlt(int64(i), m.lastModel)
 	}
 	m.trace = append(m.trace, 0)
 	m.pos++
@@ -155,6 +159,7 @@ func (m *Machine) concretize(t *Term, lo, hi int64, what string) int64 {
 	}
 	inRange := m.st.BAnd(m.st.Sle(m.st.Const(t.W, uint64(lo)), t), m.st.Sle(t, m.st.Const(t.W, uint64(hi))))
 	var vals []int64
+	models := map[int64]Model{}
 	cond := inRange
 	for {
 		ok, model, r := m.feasible(cond)
@@ -166,6 +171,7 @@ func (m *Machine) concretize(t *Term, lo, hi int64, what string) int64 {
 		}
 		v := sext(EvalTerm(t, model, map[*Term]uint64{}), t.W)
 		vals = append(vals, v)
+		models[v] = model
 		if len(vals) > maxConcretize {
 			m.unsupported("more than %d feasible values for %s", maxConcretize, what)
 		}
@@ -176,10 +182,11 @@ func (m *Machine) concretize(t *Term, lo, hi int64, what string) int64 {
 	}
 	sort.Slice(vals, func(i, j int) bool { return vals[i] < vals[j] })
 	for i := len(vals) - 1; i >= 1; i-- {
-		m.pushAlt(vals[i])
+		m.pushAlt(vals[i], models[vals[i]])
 	}
 	m.trace = append(m.trace, vals[0])
 	m.pos++
+	m.lastModel = models[vals[0]]
 	m.addPC(eqv(vals[0]))
 	return vals[0]
 }
@@ -249,7 +256,7 @@ type PathResult struct {
 	Trace    []int64
 	End      *PathEnd
 	Viols    []*Violation
-	Alts     [][]int64
+	Alts     []workItem
 	Steps    int64
 	Model    Model // witness model of the complete path (for validation)
 	Nondets  []NondetRec
@@ -263,7 +270,7 @@ type PathResult struct {
 	store *Store
 }
 
-func (m *Machine) resetPath(h *Harness, prefix []int64) {
+func (m *Machine) resetPath(h *Harness, prefix []int64, model Model) {
 	m.w = m.P.base.Fork()
 	m.st = NewStore()
 	m.sol.Reset()
@@ -274,7 +281,10 @@ func (m *Machine) resetPath(h *Harness, prefix []int64) {
 	m.pc = nil
 	m.pcSet = nil
 	m.asserted = 0
-	m.lastModel = Model{}
+	m.lastModel = model
+	if m.lastModel == nil {
+		m.lastModel = Model{}
+	}
 	m.frame = nil
 	m.depth = 0
 	m.steps = 0
@@ -294,8 +304,9 @@ func (m *Machine) resetPath(h *Harness, prefix []int64) {
 	m.lenient = false
 }
 
-func (m *Machine) RunPath(h *Harness, prefix []int64, wantWitness bool) (res *PathResult) {
-	m.resetPath(h, prefix)
+func (m *Machine) RunPath(h *Harness, it workItem, wantWitness bool) (res *PathResult) {
+	prefix := it.prefix
+	m.resetPath(h, prefix, it.model)
 	res = &PathResult{Harness: h.Name, Prefix: prefix}
 	defer func() {
 		if r := recover(); r != nil {
@@ -389,14 +400,17 @@ type FoundViolation struct {
 	st      *Store
 }
 
-type workItem struct{ prefix []int64 }
+type workItem struct {
+	prefix []int64
+	model  Model
+}
 
 func (P *Program) Explore(h *Harness, workers int, maxPaths int, nWitness int) *HarnessResult {
 	t0 := time.Now()
 	hr := &HarnessResult{Name: h.Name, Funcs: map[string]bool{}, AssertLabels: map[string]int{}}
 	var mu sync.Mutex
 	cond := sync.NewCond(&mu)
-	stack := []workItem{{nil}}
+	stack := []workItem{{}}
 	active := 0
 	done := false
 	seenViol := map[string]bool{}
@@ -429,7 +443,7 @@ func (P *Program) Explore(h *Harness, workers int, maxPaths int, nWitness int) *
 			wantW := len(hr.Witnesses) < nWitness
 			mu.Unlock()
 
-			res := m.RunPath(h, it.prefix, wantW)
+			res := m.RunPath(h, it, wantW)
 
 			mu.Lock()
 			active--
@@ -473,9 +487,7 @@ func (P *Program) Explore(h *Harness, workers int, maxPaths int, nWitness int) *
 					hr.Viols = append(hr.Viols, &FoundViolation{Harness: h.Name, V: v, st: res.store})
 				}
 			}
-			for _, a := range res.Alts {
-				stack = append(stack, workItem{a})
-			}
+			stack = append(stack, res.Alts...)
 			if maxPaths > 0 && hr.Paths >= maxPaths && (len(stack) > 0 || active > 0) {
 				hr.Truncated = true
 				done = true
